@@ -4,6 +4,7 @@
 #define ARDUINOJSON_ENABLE_PROGMEM 1
 #define ARDUINOJSON_ENABLE_ARDUINO_STRING 1
 #include "common.hpp"
+#include "typed_obs.hpp"
 #include <deque>
 #include <memory>
 #include <thread>
@@ -171,14 +172,56 @@ static std::string runOp(Ctx& c, const std::vector<std::string>& a) {
     return bindRes(a[3], v);
   }
   if (op == "set") { bool r = target([&](auto& t) { return setScalar(c, t, a[2]); }); return r ? (linkOk(H(a[1]), a[2]) ? "true" : "true!LINK") : "false"; }
-  if (op == "toarr") { target([&](auto& t) { t.template to<JsonArray>(); return 0; }); return "-"; }
-  if (op == "toobj") { target([&](auto& t) { t.template to<JsonObject>(); return 0; }); return "-"; }
+  // to<JsonArray>() on a value that already is an array empties it: the same as JsonArray::clear() (likewise for objects)
+  if (op == "toarr") { if (!viaDoc && H(a[1]).is<JsonArray>() && (alias & 4)) { H(a[1]).as<JsonArray>().clear(); return "-"; }
+                       target([&](auto& t) { t.template to<JsonArray>(); return 0; }); return "-"; }
+  if (op == "toobj") { if (!viaDoc && H(a[1]).is<JsonObject>() && (alias & 4)) { H(a[1]).as<JsonObject>().clear(); return "-"; }
+                       target([&](auto& t) { t.template to<JsonObject>(); return 0; }); return "-"; }
+  // add<JsonArray>() / add<JsonObject>() / createNestedArray() / createNestedObject(): add<JsonVariant>().to<T>() (Model/Chain.v add_typed)
+  if (op == "addarr" || op == "addobj") {
+    bool arr = op == "addarr";
+    JsonVariant h = H(a[1]);
+    JsonVariant made;
+    int way = int((alias >> 2) % 3);
+    if (!viaDoc && h.is<JsonArray>() && way == 2) {
+      JsonArray t = h.as<JsonArray>();
+      if (alias & 32) { if (arr) { JsonArray x = t.createNestedArray(); made = x; } else { JsonObject x = t.createNestedObject(); made = x; } }
+      else { if (arr) { JsonArray x = t.add<JsonArray>(); made = x; } else { JsonObject x = t.add<JsonObject>(); made = x; } }
+    } else {
+      made = target([&](auto& t) -> JsonVariant {
+        if (way == 1) { if (arr) { JsonArray x = t.createNestedArray(); return x; } JsonObject x = t.createNestedObject(); return x; }
+        if (arr) { JsonArray x = t.template add<JsonArray>(); return x; } JsonObject x = t.template add<JsonObject>(); return x; });
+    }
+    return bindRes(a[2], made);
+  }
+  // r[k].to<JsonArray>() / createNestedArray(k) / createNestedObject(k)  (Model/Chain.v nest_typed)
+  if (op == "nestarr" || op == "nestobj") {
+    bool arr = op == "nestarr";
+    std::string k = unhex(a[2]);
+    JsonVariant h = H(a[1]);
+    c.creatingKey = true;
+    int way = int((alias >> 2) % 3);
+    JsonVariant made = withKey(c, k, [&](auto kk) -> JsonVariant {
+      if (!viaDoc && h.is<JsonObject>() && way == 2) {
+        JsonObject t = h.as<JsonObject>();
+        if (alias & 32) { if (arr) { JsonArray x = t.createNestedArray(kk); return x; } JsonObject x = t.createNestedObject(kk); return x; }
+        if (arr) { JsonArray x = t[kk].template to<JsonArray>(); return x; } JsonObject x = t[kk].template to<JsonObject>(); return x;
+      }
+      return target([&](auto& t) -> JsonVariant {
+        if (way == 1) { if (arr) { JsonArray x = t.createNestedArray(kk); return x; } JsonObject x = t.createNestedObject(kk); return x; }
+        if (arr) { JsonArray x = t[kk].template to<JsonArray>(); return x; } JsonObject x = t[kk].template to<JsonObject>(); return x; });
+    });
+    return bindRes(a[3], made);
+  }
   if (op == "clear") { H(a[1]).clear(); return "-"; }
-  if (op == "addnew") return bindRes(a[2], target([&](auto& t) { return t.template add<JsonVariant>(); }));
+  if (op == "addnew") {
+    if (!viaDoc && H(a[1]).is<JsonArray>() && (alias & 4)) return bindRes(a[2], H(a[1]).as<JsonArray>().add<JsonVariant>());   // through the typed reference
+    return bindRes(a[2], target([&](auto& t) { return t.template add<JsonVariant>(); }));
+  }
   if (op == "addval") {
     // add(value): through a temporary document for non-string scalars is not the same API; call add() directly
     const std::string& d = a[2];
-    bool ok = target([&](auto& r) -> bool {
+    auto body = [&](auto& r) -> bool {
     bool ok;
     if (d == "n") ok = r.add(nullptr);
     else if (d == "t") ok = r.add(true);
@@ -188,7 +231,10 @@ static std::string runOp(Ctx& c, const std::vector<std::string>& a) {
     else if (d[0] == 'D') { uint64_t b = (uint64_t)std::stoull(d.substr(1), nullptr, 16); double f; memcpy(&f, &b, 8); ok = r.add(f); }
     else if (d[0] == 's') { std::string s = unhex(d.substr(1)); ok = withKey(c, s, [&](auto k) { return r.add(k); }); }
     else { ok = r.add(serialized(unhex(d.substr(1)))); }
-    return ok; });
+    return ok; };
+    bool ok;
+    if (!viaDoc && H(a[1]).is<JsonArray>() && (alias & 4)) { JsonArray arr = H(a[1]).as<JsonArray>(); ok = body(arr); }   // JsonArray::add(value)
+    else ok = target(body);
     return ok ? "true" : "false";
   }
   if (op == "getelem") {
@@ -198,10 +244,14 @@ static std::string runOp(Ctx& c, const std::vector<std::string>& a) {
     if (h.is<JsonArray>() && (alias & 1)) return bindRes(a[3], JsonVariant(h.as<JsonArray>()[idx]));
     return bindRes(a[3], JsonVariant(h[idx]));
   }
-  if (op == "makeelem") return bindRes(a[3], target([&](auto& t) { return t[(size_t)std::stoul(a[2])].template to<JsonVariant>(); }));
+  if (op == "makeelem") {
+    if (!viaDoc && H(a[1]).is<JsonArray>() && (alias & 4)) return bindRes(a[3], H(a[1]).as<JsonArray>()[(size_t)std::stoul(a[2])].to<JsonVariant>());
+    return bindRes(a[3], target([&](auto& t) { return t[(size_t)std::stoul(a[2])].template to<JsonVariant>(); }));
+  }
   if (op == "setelem") {   // r[i] = x
     size_t idx = std::stoul(a[2]);
-    bool r = target([&](auto& t) { return setScalar(c, t[idx], a[3]); });
+    bool r = (!viaDoc && H(a[1]).is<JsonArray>() && (alias & 4)) ? setScalar(c, H(a[1]).as<JsonArray>()[idx], a[3])
+                                                               : target([&](auto& t) { return setScalar(c, t[idx], a[3]); });
     return r ? (linkOk(JsonVariantConst(H(a[1]))[idx], a[3]) ? "true" : "true!LINK") : "false";
   }
   if (op == "getmember") {
@@ -211,10 +261,13 @@ static std::string runOp(Ctx& c, const std::vector<std::string>& a) {
     if (h.is<JsonObject>() && (alias & 1)) return bindRes(a[3], withKey(c, k, [&](auto kk) { return JsonVariant(h.as<JsonObject>()[kk]); }));
     return bindRes(a[3], withKey(c, k, [&](auto kk) { return JsonVariant(h[kk]); }));
   }
-  if (op == "makemember") { std::string k = unhex(a[2]); return bindRes(a[3], withKey(c, k, [&](auto kk) { return target([&](auto& t) { return t[kk].template to<JsonVariant>(); }); })); }
+  if (op == "makemember") { std::string k = unhex(a[2]); if (!viaDoc && H(a[1]).is<JsonObject>() && (alias & 4)) return bindRes(a[3], withKey(c, k, [&](auto kk) { return H(a[1]).as<JsonObject>()[kk].template to<JsonVariant>(); }));
+    return bindRes(a[3], withKey(c, k, [&](auto kk) { return target([&](auto& t) { return t[kk].template to<JsonVariant>(); }); })); }
   if (op == "setmember") {   // r[k] = x
     std::string k = unhex(a[2]);
-    bool r = withKey(c, k, [&](auto kk) { return target([&](auto& t) { return setScalar(c, t[kk], a[3]); }); });
+    bool r = (!viaDoc && H(a[1]).is<JsonObject>() && (alias & 4))
+                 ? withKey(c, k, [&](auto kk) { return setScalar(c, H(a[1]).as<JsonObject>()[kk], a[3]); })
+                 : withKey(c, k, [&](auto kk) { return target([&](auto& t) { return setScalar(c, t[kk], a[3]); }); });
     return r ? (linkOk(JsonVariantConst(H(a[1]))[k], a[3]) ? "true" : "true!LINK") : "false";
   }
   // the same operation is reached through different entry points of the API (variant, typed reference, iterator),
@@ -222,7 +275,13 @@ static std::string runOp(Ctx& c, const std::vector<std::string>& a) {
   if (op == "rmidx") {
     size_t idx = std::stoul(a[2]);
     JsonVariant h = H(a[1]);
-    if (viaDoc) c.docs[h1]->remove(idx);
+    JsonDocument idxDoc; idxDoc.set(idx);
+    if ((alias & 12) == 12) {     // the index given as a variant
+      if (viaDoc) c.docs[h1]->remove(idxDoc.as<JsonVariantConst>());
+      else if (h.is<JsonArray>() && (alias & 1)) h.as<JsonArray>().remove(idxDoc.as<JsonVariantConst>());
+      else h.remove(idxDoc.as<JsonVariantConst>());
+    }
+    else if (viaDoc) c.docs[h1]->remove(idx);
     else if (h.is<JsonArray>() && alias % 3 == 1) h.as<JsonArray>().remove(idx);
     else if (h.is<JsonArray>() && alias % 3 == 2) {
       JsonArray arr = h.as<JsonArray>();
@@ -235,7 +294,13 @@ static std::string runOp(Ctx& c, const std::vector<std::string>& a) {
   if (op == "rmkey") {
     std::string k = unhex(a[2]);
     JsonVariant h = H(a[1]);
-    if (viaDoc) withKey(c, k, [&](auto kk) { c.docs[h1]->remove(kk); return 0; });
+    JsonDocument keyDoc; keyDoc.set(k);
+    if ((alias & 12) == 12) {     // the key given as a variant
+      if (viaDoc) c.docs[h1]->remove(keyDoc.as<JsonVariantConst>());
+      else if (h.is<JsonObject>() && (alias & 1)) h.as<JsonObject>().remove(keyDoc.as<JsonVariantConst>());
+      else h.remove(keyDoc.as<JsonVariantConst>());
+    }
+    else if (viaDoc) withKey(c, k, [&](auto kk) { c.docs[h1]->remove(kk); return 0; });
     else if (h.is<JsonObject>() && alias % 3 == 1) withKey(c, k, [&](auto kk) { h.as<JsonObject>().remove(kk); return 0; });
     else if (h.is<JsonObject>() && alias % 3 == 2) {
       JsonObject obj = h.as<JsonObject>();
@@ -247,7 +312,18 @@ static std::string runOp(Ctx& c, const std::vector<std::string>& a) {
   if (op == "assign") {
     JsonVariantConst src = H(a[2]);
     bool srcStr = src.is<JsonString>(), srcLinked = srcStr && src.as<JsonString>().isLinked();
-    bool r = H(a[1]).set(src);
+    bool r;
+    JsonVariant dstv = H(a[1]);
+    int way = int((alias >> 2) % 4);
+    bool otherDoc = viaDoc && detail::VariantAttorney::getResourceManager(src) != detail::VariantAttorney::getResourceManager(dstv);
+    if (src.is<JsonArrayConst>() && way == 1) r = dstv.set(src.as<JsonArrayConst>());                // Converter<JsonArrayConst>
+    else if (src.is<JsonObjectConst>() && way == 1) r = dstv.set(src.as<JsonObjectConst>());
+    else if (src.is<JsonArrayConst>() && way == 2 && dstv.is<JsonArray>()) r = dstv.as<JsonArray>().set(src.as<JsonArrayConst>());      // JsonArray::set
+    else if (src.is<JsonObjectConst>() && way == 2 && dstv.is<JsonObject>()) r = dstv.as<JsonObject>().set(src.as<JsonObjectConst>());  // JsonObject::set
+    else if (way == 3 && otherDoc) { *c.docs[h1] = src; r = !c.docs[h1]->overflowed(); }            // JsonDocument::operator=(const T&)
+    else if (way == 3 && src.is<JsonArrayConst>()) { JsonArray sa = H(a[2]).as<JsonArray>(); r = dstv.set(sa); }    // mutable typed reference as the source
+    else if (way == 3 && src.is<JsonObjectConst>()) { JsonObject so = H(a[2]).as<JsonObject>(); r = dstv.set(so); }
+    else r = dstv.set(src);
     if (r && srcStr && a[1] != a[2] && JsonVariantConst(H(a[1])).is<JsonString>() &&
         JsonVariantConst(H(a[1])).as<JsonString>().isLinked() != srcLinked) return "true!LINK";
     return r ? "true" : "false";
@@ -320,6 +396,20 @@ static std::string runHistory(size_t nd, int kind, const std::string& fs, const 
       std::string res = runOp(c, a);
       std::string docs;
       for (size_t i = 0; i < nd; i++) docs += (i ? "|" : "") + dump(c.docs[i]->as<JsonVariantConst>());
+      if (fs == "-") {
+        // the typed references' own observers, operator| and the less used is<T>/as<T> targets, on every document root and
+        // on the value the operation just produced or touched
+        std::string t;
+        for (size_t i = 0; i < nd && t.empty(); i++) t = typedObs(c.docs[i]->as<JsonVariant>(), c.docs[i].get());
+        if (t.empty() && a.size() > 1 && isdigit((unsigned char)a[1][0])) {
+          size_t hi = std::stoul(a[1]);
+          if (hi < c.handles.size() && hi >= nd && a[0][0] != 'd') {
+            bool watched = ("," + watch + ",").find("," + a[1] + ",") != std::string::npos;
+            if (watched) t = typedObs(c.handles[hi], nullptr);
+          }
+        }
+        if (!t.empty()) docs += "!TYPED:" + t;
+      }
       std::string hd;
       std::istringstream ws(watch);
       std::string tok;
